@@ -139,6 +139,9 @@ func genMatch(r *wire.Rng, stream string, gw, malformed bool) *networking.HTTPMa
 		m.Method = mkSM(r.Intn(3)%2*2, wire.Pick(r, []string{"GET", "POST", "G.*", "GET|PUT"}))
 		if isRegex(m.Method) == false {
 			m.Method = mkSM(0, wire.Pick(r, methods))
+			if r.Chance(1, 4) {
+				m.Method = mkSM(1, wire.Pick(r, []string{"P", "GE", "PO"}))
+			}
 		}
 	}
 	if r.Chance(1, 6) {
@@ -153,6 +156,12 @@ func genMatch(r *wire.Rng, stream string, gw, malformed bool) *networking.HTTPMa
 	}
 	if r.Chance(1, 8) {
 		m.Scheme = mkSM(0, wire.Pick(r, schemes))
+		switch r.Intn(4) {
+		case 0:
+			m.Scheme = mkSM(1, "http")
+		case 1:
+			m.Scheme = mkSM(2, wire.Pick(r, []string{"https?", "h.*s"}))
+		}
 	}
 	if r.Chance(1, 5) {
 		m.Port = uint32(wire.Pick(r, ports))
@@ -200,7 +209,7 @@ func genRule(r *wire.Rng, stream string, idx int, gw, malformed bool) *networkin
 				}
 			}
 		} else {
-			rd.Uri = wire.Pick(r, []string{"/new", "/"})
+			rd.Uri = wire.Pick(r, []string{"/new", "/", ""}) // "": the redirect keeps the request path
 		}
 		switch r.Intn(6) {
 		case 0:
@@ -220,6 +229,9 @@ func genRule(r *wire.Rng, stream string, idx int, gw, malformed bool) *networkin
 		dr := &networking.HTTPDirectResponse{Status: uint32(wire.Pick(r, []int{200, 404, 503}))}
 		if r.Chance(1, 2) {
 			dr.Body = &networking.HTTPBody{Specifier: &networking.HTTPBody_String_{String_: wire.Pick(r, []string{"hello", "", "not found"})}}
+			if r.Chance(1, 3) { // the body as bytes: the same response
+				dr.Body = &networking.HTTPBody{Specifier: &networking.HTTPBody_Bytes{Bytes: []byte(wire.Pick(r, []string{"hello", "", "{\"a\":1}"}))}}
+			}
 		}
 		h.DirectResponse = dr
 	}
@@ -254,6 +266,14 @@ func sortedKV(m map[string]string) []kv {
 	return out
 }
 
+// bodyText: the response body a directResponse asks for, whichever way it is written (string or bytes)
+func bodyText(b *networking.HTTPBody) string {
+	if x, ok := b.GetSpecifier().(*networking.HTTPBody_Bytes); ok {
+		return string(x.Bytes)
+	}
+	return b.GetString_()
+}
+
 func emitRule(o *wire.Out, h *networking.HTTPRoute) {
 	switch {
 	case h.Redirect != nil:
@@ -274,9 +294,13 @@ func emitRule(o *wire.Out, h *networking.HTTPRoute) {
 	case h.DirectResponse != nil:
 		b := "-"
 		if h.DirectResponse.Body != nil {
-			b = wire.Enc(h.DirectResponse.Body.GetString_())
+			b = wire.Enc(bodyText(h.DirectResponse.Body))
 		}
-		o.Line("rule", wire.Enc(h.Name), "direct", strconv.Itoa(int(h.DirectResponse.Status)), b)
+		if _, ok := h.DirectResponse.GetBody().GetSpecifier().(*networking.HTTPBody_Bytes); ok {
+			o.Line("rule", wire.Enc(h.Name), "direct", strconv.Itoa(int(h.DirectResponse.Status)), b, "bytes")
+		} else {
+			o.Line("rule", wire.Enc(h.Name), "direct", strconv.Itoa(int(h.DirectResponse.Status)), b)
+		}
 	default:
 		var ds []string
 		for _, d := range h.Route {
